@@ -247,7 +247,25 @@ def check_C12(c):
     c.rep.assumptions = ["float32 transcendental functions are compared with github.com/chewxy/math32 (the float32 routines the package documents using)"]
 
 
-CHECKS = {"C01": check_C01, "C02": check_C02, "C03": check_C03, "C04": check_C04, "C13": check_C13, "C06": check_C06, "C07": check_C07, "C11": check_C11, "C12": check_C12}
+def check_C08(c):
+    q = c.quick
+    inv = ["TypeOK", "CopiesDisjoint", "FibresPartition", "Emit"]
+    k = dict(MinRank=1, MaxRank=3 if q else 4, MaxDim=3, MaxDimHi=2, HiRank=3 if q else 4, LayA={S(x) for x in LAYS},
+             Kinds={S("Reduce"), S("Arg")})
+    cases = c.tlc("MC_reduce", "reduce", k, inv)
+    c.replay("reduce", cases, dtypes="ordered,complex128,string", pals="ident,signed,edge,nonfinite", rotate=6 if q else 0,
+             extra=["-ops", "all", "-entries", "func,method"] + (["-palrotate", "2"] if q else []))
+    c.rep.rule = ("TLC enumerates shapes of rank 1-4 x operand layouts {contiguous, lazily transposed, window, inner slice, step slice, "
+                  "materialised} x every non-empty axis set in every order of listing (and the empty list) for the folds, every single axis "
+                  "and all-axes for the arg-reductions; the fold is the placeholder OP, substituted by Sum/Max/Min/generic Reduce and "
+                  "Argmax/Argmin for all ordered element types (complex for Sum) with palettes containing ties, negatives, overflow and "
+                  "non-finite values; result shape, every element (left fold of the fibre in logical order; first index of the extreme), "
+                  "the operand, its backing and the caller's axes slice are compared")
+    c.rep.assumptions = ["a refusal is accepted for any input (the statement allows refusing unsupported layouts)",
+                         "sums of non-integer floats are compared within 8 ulp (accumulation order is not specified); NaN in arg-reductions is left open"]
+
+
+CHECKS = {"C01": check_C01, "C02": check_C02, "C03": check_C03, "C04": check_C04, "C13": check_C13, "C06": check_C06, "C07": check_C07, "C11": check_C11, "C12": check_C12, "C08": check_C08}
 
 HOOK_COMMITS = []
 NOT_YET = {}
@@ -284,6 +302,10 @@ LEVELS = {
             "technique": "TLC-enumerated unary structures (MC_elem, Kinds={Unary}) replayed with every unary function, Clamp and Apply, every element type and palette",
             "text": "bounded exhaustive model checking of the structure; values from Go's math/math32/cmplx routines within 8 ulp, exact for integer types and algebraic functions",
             "note": "bounded (rank<=4, dims<=3); scalar function delegated to Go's maths routines as the property states"},
+    "C08": {"ref": "DESIGN.md 4 C08",
+            "technique": "TLC-enumerated reduction structures (MC_reduce, invariant FibresPartition) replayed with every fold, element type and palette",
+            "text": "bounded exhaustive model checking of which elements are folded into which result position for every axis set, order of listing and operand layout; folds evaluated with Go's operators (integer sums wrap), first-index rule for arg-reductions",
+            "note": "bounded (rank<=4, dims<=3); refusal accepted"},
     "C01": {"ref": "DESIGN.md 4 C01",
             "technique": "TLC-enumerated behaviours of the TLA+ tensor machine (MC_addr) replayed on the real library",
             "text": "bounded exhaustive model checking: TLC enumerates every shape/constructor/layout in bounds and the complete coordinate->cell table of each; every table entry is executed (At and SetAt) on the real tensor for every element type, with a full snapshot of all storage around each write",
